@@ -78,6 +78,12 @@ def gen_cases(seed, tier):
     add("hardlink_big", links=["other/alias_big"], reps=2600 + rnd.randrange(800), mode=0o640)
     add("relative_arg", relarg=True, path="sub/r.sh", reps=2)
     add("relative_dir_arg", relarg=True, arg="dir", path="sub/s.sh", reps=1, tmp="missing")
+    # base names near NAME_MAX (255): the temp file "." + name + random digits cannot be created, neither in $TMPDIR
+    # nor next to the target; shfmt must then refuse (exit 1) and leave the file untouched -- or, at the border
+    # (240), succeed atomically when the random suffix happens to be short enough
+    for ln_, tmp_ in ((240, "own"), (250, "own"), (255, "missing"), (247, "missing")):
+        add("longname_%d" % ln_, path="sub/" + "n" * (ln_ - 3) + ".sh", reps=2, mode=(0o644, 0o755)[ln_ % 2],
+            tmp=tmp_, may_refuse=True)
     # targets that must not be replaced
     add("formatted", kind="formatted", unit=b"echo %s\n" % word(), reps=3)
     add("empty", kind="formatted", unit=b"", reps=0)
@@ -509,7 +515,8 @@ def run(ctx):
     cases = gen_cases(ctx.seed, ctx.tier)
     ctx.rule = ("fixed enumeration of target shapes: regular files of 1 unit, ~60 units, >64 KiB (thorough: 1 MiB), "
                 "whitespace-only (formatted output empty), modes 0644 0600 0755 0444 0666 0640 0700 0664, file in "
-                "sub-directories, directory walk, relative path arguments, targets with one or two further hard links (small, tiny, "
+                "sub-directories, directory walk, base names of 240/247/250/255 bytes (temp file creation fails: refusal expected), "
+                "relative path arguments, targets with one or two further hard links (small, tiny, "
                 ">64 KiB, nested + relative), $TMPDIR usable / missing / on another file system, already "
                 "formatted, empty, parse error, symlink, FIFO (explicit and inside a walked directory); the seed "
                 "picks identifiers/units/sizes and which cases get full fault enumeration in the quick tier; "
@@ -543,7 +550,8 @@ def run(ctx):
         quick_full.add(cases[i]["name"])
     for i in reg[1:3]:
         quick_key.add(cases[i]["name"])
-    quick_key.update(["hardlink", "hardlink_rel_nested", "hardlink_tiny"])
+    quick_key.update(["hardlink", "hardlink_rel_nested", "hardlink_tiny", "longname_250",
+                      ("longname_240", "longname_255", "longname_247")[ctx.seed % 3]])
     quick_key.add("big64k" if ctx.seed % 2 == 0 else "hardlink_big")
     blocks = []         # per case: (definitions, [C<k> definitions])
     labels = []
@@ -614,7 +622,10 @@ def run(ctx):
                 if t[1] != c["mode"]:
                     ctx.fail("mode_unchanged", inp, None, {"after_mode": "%o" % t[1]})
                 if completed and expect_replace and t[2] != c["new"]:
-                    ctx.fail("completed_run_formats", inp, None, {"rc": rc})
+                    if not (c.get("may_refuse") and rc == 1 and t[2] == c["orig"]):      # refused and untouched
+                        ctx.fail("completed_run_formats", inp, None, {"rc": rc})
+                if completed and expect_replace and t[2] == c["new"] and rc != 0:
+                    ctx.fail("exit_status", inp, None, {"rc": rc, "want": 0})
             if completed:
                 left = sorted(n for n in after if after[n] is not None and n not in before)
                 if left:
@@ -658,6 +669,9 @@ def run(ctx):
         want_rc = 0 if c["kind"] in ("regular", "formatted", "fifo") else 1
         if c["kind"] == "symlink" and c["arg"] == "dir":
             want_rc = 0
+        if c.get("may_refuse") and c["kind"] == "regular":
+            t_ = after.get(env.target)
+            want_rc = 0 if (t_ and t_[2] == c["new"]) else 1
         if rc != want_rc:
             ctx.fail("exit_status", {"case": c["name"], "rc": rc, "want": want_rc}, None, {"stderr": err[-300:]})
         direct_checks("complete", rc, before, after, True)
